@@ -132,7 +132,9 @@ Definition helper_takes_iterator (h : helper) : bool :=
 Definition helper_returns_iterator (h : helper) : bool :=
   match h with H_unary_stream | H_stream_stream => true | _ => false end.
 
-(* __resolve_request_kwargs:  self.x if x is None else x  *)
+(* __resolve_request_kwargs:  self.x if x is None else x.
+   The test is `is None`, not truthiness: a value that is set but falsy (timeout=0, metadata={} / [] / ()) is
+   [Some v] here like any other value and wins over the stub-level default. *)
 Definition is_none {A} (o : option A) : bool := match o with None => true | Some _ => false end.
 Definition resolve1 {A} (self_v call_v : option A) : option A :=
   if is_none call_v then self_v else call_v.
@@ -331,7 +333,16 @@ Record observation := Obs {
   ob_res : cres                          (* what the caller got *)
 }.
 
-(* stub.<py>(arg, timeout=, deadline=, metadata=) on a stub constructed with [skw].
+(* WHAT THE MODEL CANNOT EXPRESS about a stream-stream call: [call] takes the whole request stream as a list
+   and returns the whole response stream as a list, so it says WHICH messages travel and in WHAT ORDER on each
+   side, not how sending and receiving are interleaved in time.  ServiceStub._stream_stream sends from a
+   background task (asyncio.ensure_future(self._send_messages(...))) while it yields responses; a caller whose
+   request iterator produces request i+1 only after it has seen response i (a conversation) depends on that
+   overlap.  Whether the overlap exists is a property of the asyncio schedule, outside this model: it is checked
+   by the harness only (real "ping-pong" calls under a watchdog, for every stream-stream method), and the
+   theorems are labelled partial for it.
+
+   stub.<py>(arg, timeout=, deadline=, metadata=) on a stub constructed with [skw].
    None: outside the model (no such attribute; an iterator where a message is expected or
    the reverse — Python raises before anything is sent). A stream containing a message of the
    wrong class makes the codec raise on the client after the request was opened; the model
@@ -395,6 +406,9 @@ Definition cv_obs (o : option observation) : cv :=
 (* the same without the trace (calls whose handler the harness cannot instrument: defaults) *)
 Definition cv_obs_notrace (o : option observation) : cv :=
   copt (fun o => CL [cv_rinfo (ob_req o); cv_cres (ob_res o)]) o.
+
+(* only what reached channel.request (calls whose resolved timeout is 0: expired before they start) *)
+Definition cv_obs_reqonly (o : option observation) : cv := copt (fun o => cv_rinfo (ob_req o)) o.
 
 (* reflected class contents *)
 (* the two unary helpers are not given the declared input type: nothing to reflect there *)
